@@ -33,6 +33,10 @@ def cases(tier, rng, dist):
         if rng.random() < 0.2:
             v.sort(reverse=rng.random() < 0.5)
         yield {"p": [str(x) for x in v], "m": rng.choice(list(METHODS)), "perm_seed": rng.randint(0, 10**6)}
+    # long vectors (hundreds, tens of thousands of hypotheses, heavy ties): the values are still the textbook ones
+    for n in ((300, 1025, 70001) if tier == "quick" else (300, 1025, 4099, 70001, 140001)):
+        for m in METHODS:
+            yield {"big": True, "n": n, "m": m, "seed": rng.randint(0, 10**6), "p": [], "perm_seed": 0}
     # unknown method names are rejected whatever the vector: one p-value, many, tied, sorted, all ones, zeros
     for name in ["nonsense", "holm", "Bonferroni", "bh", "", "holm-bonferroni ", "benjamini hochberg", "BONFERRONI", "b", "none"]:
         for v in (["1/8", "1/2"], ["1/32"], ["1"], ["0"], ["1/2", "1/2", "1/2"], ["1", "1"], ["1/8", "1/4", "1/2", "1"], [str(Fraction(k, 41)) for k in range(1, 41)]):
@@ -55,7 +59,33 @@ def textbook(p, m):
     return out
 
 
+def big_vector(c):
+    rs = np.random.RandomState(c["seed"])
+    return rs.randint(0, 1001, size=c["n"]) / 1000.0          # permutation p-values k/1000 with many ties
+
+
+def textbook_big(p, m):
+    n = len(p); order = np.argsort(p, kind="stable"); sp = p[order]
+    if m == "bonferroni":
+        return np.minimum(1.0, n * p)
+    out = np.empty(n)
+    if m == "holm-bonferroni":
+        out[order] = np.maximum.accumulate(np.minimum(1.0, (n - np.arange(n)) * sp))
+    else:
+        out[order] = np.minimum.accumulate(np.minimum(1.0, n * sp / (np.arange(n) + 1.0))[::-1])[::-1]
+    return out
+
+
 def run(c):
+    if c.get("big"):
+        a = big_vector(c); a0 = a.copy()
+        r = guarded(lambda: np.asarray(adjust_p(a, c["m"]), dtype=float), secs=120)
+        if r[0] != "ok":
+            return {"r": list(r)[:3], "unmodified": bool((a == a0).all())}
+        want = textbook_big(a0, c["m"])
+        bad = np.nonzero(~(np.abs(r[1] - want) <= 1e-9))[0] if r[1].shape == want.shape else np.array([0])
+        return {"r": ["ok", int(len(bad))] + ([int(bad[0]), float(a0[bad[0]]), float(r[1][bad[0]]) if r[1].shape == want.shape else None, float(want[bad[0]])] if len(bad) else []),
+                "unmodified": bool((a == a0).all()), "shape": list(r[1].shape)}
     p = [Fraction(x) for x in c["p"]]
     a = interned(np.array([float(x) for x in p]))
     a0 = a.copy()
@@ -80,6 +110,15 @@ def run(c):
 
 
 def oracle(c, o):
+    if c.get("big"):
+        r = o["r"]
+        if r[0] != "ok":
+            return {"why": f"adjust_p raised on {c['n']} p-values: {r}", "cls": "adjust_p:raises"}
+        if not o["unmodified"]:
+            return {"why": "adjust_p modified its input", "cls": "adjust_p:input-modified"}
+        if r[1]:
+            return {"why": f"{c['m']} on {c['n']} p-values k/1000 (RandomState({c['seed']}).randint(0, 1001, {c['n']})/1000): {r[1]} entries differ from the textbook values, e.g. index {r[2]}: p={r[3]}, returned {r[4]}, textbook {r[5]}", "cls": "adjust_p:value"}
+        return None
     p = [Fraction(x) for x in c["p"]]
     r = o["r"]
     if c["m"] not in METHODS:
@@ -102,6 +141,8 @@ def oracle(c, o):
 
 
 def to_coq(c, o):
+    if c.get("big"):
+        return None
     p = [Fraction(x) for x in c["p"]]
     m = METHODS.get(c["m"], "Unknown")
     r = o["r"]
@@ -110,6 +151,8 @@ def to_coq(c, o):
 
 
 def nontrivial(c, o):
+    if c.get("big"):
+        return o["r"][0] == "ok"
     p = [Fraction(x) for x in c["p"]]
     return c["m"] in METHODS and len(set(p)) < len(p) and len(set(p)) > 1
 
